@@ -43,8 +43,10 @@ THEOREMS = ["QExPy.ArrayEdit.C17_pyIndex_iff",
             "QExPy.ArrayEdit.C17_values_errors_run"]
 RULE = ("seeded edit histories (1-15 edits) on initial arrays with no / common / per-element / "
         "relative uncertainties, with or without name and unit: append / insert / delete / item "
-        "assignment with a number, a (value, error) pair, a measurement (own name and unit), a list "
-        "of those or another MeasurementArray, at every valid index incl. negative ones, plus a "
+        "assignment with a number, a (value, error) pair, a measurement (own name and unit; also one "
+        "recorded from repeated readings), a list of those (also empty) or another MeasurementArray, "
+        "at every valid index incl. negative ones; every array an edit started from is read again "
+        "after every later step; plus a "
         "malformed stream (out-of-range indices, negative uncertainties in pairs, non-numeric "
         "operands); after each edit values, uncertainties, unit, array name, element names and "
         "units and the length of the result and of the array the edit started from are read and "
